@@ -617,6 +617,15 @@ class Machine(TreeEval):
                         return int(not t)
                     if last == "len":
                         return len(t)
+                    if last == "get" and len(e[2]) == 2:
+                        i_ = self._tryev(e[2][1])
+                        if isinstance(i_, int):
+                            return ("agg", "Some", (ord(t[i_]),)) if 0 <= i_ < len(t) else ("agg", "None", ())
+                    if last == "get_unchecked" and len(e[2]) == 2:
+                        i_ = self.ev(e[2][1])
+                        if not (0 <= i_ < len(t)):
+                            raise Panic("get_unchecked out of bounds")
+                        return ord(t[i_])
                     if last == "split_last":
                         return ("agg", "Some", (("agg", "tuple", (ord(t[-1]), ("bytes", t[:-1]))),)) if t else ("agg", "None", ())
                     if last == "split_first":
@@ -746,6 +755,26 @@ class Machine(TreeEval):
                 a, b = self.ev(e[2][0]), self.ev(e[2][1])
                 if isinstance(a, int) and isinstance(b, int):
                     return max(a - b, 0) if last == "saturating_sub" else a + b
+            if last == "transpose" and len(e[2]) == 1:
+                v = self.ev(e[2][0])
+                if v[1] == "None":
+                    return ("agg", "Ok", (("agg", "None", ()),))
+                if v[1] == "Some":
+                    inner = v[2][0]
+                    if inner[1] == "Ok":
+                        return ("agg", "Ok", (("agg", "Some", inner[2]),))
+                    return inner
+                if v[1] == "Ok":
+                    inner = v[2][0]
+                    if inner[1] == "Some":
+                        return ("agg", "Some", (("agg", "Ok", inner[2]),))
+                    return ("agg", "None", ())
+                if v[1] == "Err":
+                    return ("agg", "Some", (v,))
+            if last in ("is_some", "is_none", "is_ok", "is_err") and len(e[2]) == 1:
+                v = self._tryev(e[2][0])
+                if isinstance(v, tuple) and v and v[0] == "agg" and v[1] in ("Some", "None", "Ok", "Err"):
+                    return int(v[1] == {"is_some": "Some", "is_none": "None", "is_ok": "Ok", "is_err": "Err"}[last])
             if last == "ok_or":
                 v = self.ev(e[2][0])
                 if v[1] == "Some":
